@@ -216,7 +216,9 @@ def run_mutant(k, pid, rel, desc, new_src, workers, keep_dir):
         shutil.rmtree(d, ignore_errors=True)
         for sub in ('alt-replays', 'alt-evidence'):
             shutil.rmtree(os.path.join(HERE, 'work', sub, tag), ignore_errors=True)
-        shutil.rmtree(os.path.join(HERE, 'work', pid + '.' + tag), ignore_errors=True)
+        import glob as _g
+        for w in _g.glob(os.path.join(HERE, 'work', pid + '.' + tag + '*')):
+            shutil.rmtree(w, ignore_errors=True)
 
 
 def main():
